@@ -322,7 +322,19 @@ theorem split_core (vars : Array Var) (cons : Array Con) (n : Nat) (ia : Array N
         (populateSplit (cons.set! ci { cons[ci]! with active := false })
           (blk vars (cons[ci]!).l) n fuel vars m1 (cons[ci]!).l (some (cons[ci]!).r)).1
         m2 (cons[ci]!).r (some (cons[ci]!).l)).1
-      (cons.set! ci { cons[ci]! with active := false }) (n + 2) (ia.push ci) := by
+      (cons.set! ci { cons[ci]! with active := false }) (n + 2) (ia.push ci) ∧
+    (∀ x, ReachAvoid cons ci (cons[ci]!).l x →
+      blk (populateSplit (cons.set! ci { cons[ci]! with active := false })
+        (blk vars (cons[ci]!).l) (n + 1) fuel
+        (populateSplit (cons.set! ci { cons[ci]! with active := false })
+          (blk vars (cons[ci]!).l) n fuel vars m1 (cons[ci]!).l (some (cons[ci]!).r)).1
+        m2 (cons[ci]!).r (some (cons[ci]!).l)).1 x = n) ∧
+    (∀ x, ReachAvoid cons ci (cons[ci]!).r x →
+      blk (populateSplit (cons.set! ci { cons[ci]! with active := false })
+        (blk vars (cons[ci]!).l) (n + 1) fuel
+        (populateSplit (cons.set! ci { cons[ci]! with active := false })
+          (blk vars (cons[ci]!).l) n fuel vars m1 (cons[ci]!).l (some (cons[ci]!).r)).1
+        m2 (cons[ci]!).r (some (cons[ci]!).l)).1 x = n + 1) := by
   -- names
   generalize hcons1 : cons.set! ci { cons[ci]! with active := false } = cons1 at *
   generalize hold : blk vars (cons[ci]!).l = old at *
@@ -520,6 +532,12 @@ theorem split_core (vars : Array Var) (cons : Array Con) (n : Nat) (ia : Array N
     rw [hget j hj] at ha
     exact ⟨hj, ha⟩
   have hlkf : LinkOK cons1 vars2 := hlk1.of_mono s2.mono
+  have hreach1c : ∀ {x y}, ReachAvoid cons ci x y → Reach cons1 x y :=
+    fun hxy => reflTransGen_adj_mono (fun j a b hp hj => ⟨trivial, (hae j a b).2 ⟨hp, hj⟩⟩) hxy
+  refine ⟨?_, fun x hx => by
+      have := hcomp1 (hreach1c hx)
+      rw [s2.mono.stay_eq (by rw [this]; exact hn1), this],
+    fun x hx => hcomp2 (hreach1c hx)⟩
   refine
     { outs_sound := hlkf.outs_sound, outs_complete := hlkf.outs_complete,
       ins_sound := hlkf.ins_sound, ins_complete := hlkf.ins_complete, tight := ?_,
@@ -634,8 +652,8 @@ theorem split_inv (st : St) (ci : Nat) (h : Inv st) (hci : ci < st.cons.size)
   simp only [St.refreshBlock] at hfo ⊢
   simp only [Bool.or_eq_false_iff, Bool.not_eq_false'] at hfo
   obtain ⟨⟨_, hok1⟩, hok2⟩ := hfo
-  have := split_core st.vars st.cons st.blocks.size st.inactive h ci hci hact (st.vars.size + 1) #[] #[]
-    hok1 hok2
+  have := (split_core st.vars st.cons st.blocks.size st.inactive h ci hci hact (st.vars.size + 1) #[] #[]
+    hok1 hok2).1
   simpa using this
 
 end AdaptaVerif.Lemmas.VpscSplit
